@@ -528,8 +528,9 @@ Definition spec_events (c : comp) (ops : list op) : list (list ev) := snd (srun 
      step = (0 (field ...) [sugared]) With | (1 (field ...) [sugared]) WithLazy | (2 #seg [sugared]) Named
           | (3 (field ...) [sugared]) Fields | (4) Sugar | (5) Desugar
      field = as Enc/WireEnc.v, or (100 #key) (101) (102 #key) (103 #key) mutable object / inline / array / stringer
-   observation = one per OLog op:  ((aux ...) (sink-0 lines ...) (sink-1 lines ...) ...)
-     aux = (0) sampler hook | (1 #name #msg) hook;  line = (#bytes) | () on a panic                       *)
+   per-call observation = one per OLog op:  ((aux ...) (sink-0 lines ...) (sink-1 lines ...) ...)
+     aux = (0) sampler hook | (1 #name #msg) hook;  line = (#bytes) | () on a panic
+   (the whole observation: see [enc_obs2] below)                                                          *)
 Definition dec_sfld (s : sx) : sfld :=
   match sx_z (sx_nth s 0) with
   | 100%Z => SMObj (sx_b (sx_nth s 1))
@@ -635,11 +636,26 @@ Definition enc_log (nk : nat) (evs : list ev) : sx :=
   SL (SL (map enc_ev (filter is_aux evs)) :: map (fun k => SL (map enc_ev (filter (is_out k) evs))) (seq 0 nk)).
 Definition enc_obs (nk : nat) (l : list (list ev)) : sx := SL (map (enc_log nk) l).
 
+(* The END-OF-HISTORY view.  Every entry a sink holds is read a second time, after the whole program
+   (all later logging calls and derivations, on the same logger and on every other one) has run: for an
+   observer the LoggedEntry values ObservedLogs.All() / TakeAll() return at the end (rendered with the world
+   put back to the value it had at the call), for an io sink the bytes it was handed.  An entry is a value:
+   once recorded it is what its call prescribed, whatever is logged or derived afterwards (in the code:
+   contextObserver.Write copies context and call-site fields into a slice of its own -- the heap model of
+   that is C07/Alias.v [observer_entries_stable]; ioCore.Write hands the sink a finished buffer).
+     observation = ((per-call observation ...) (per-call end view ...))
+     per-call end view = ((sink-0 lines ...) (sink-1 lines ...) ...)                                      *)
+Definition enc_log_end (nk : nat) (evs : list ev) : sx :=
+  SL (map (fun k => SL (map enc_ev (filter (is_out k) evs))) (seq 0 nk)).
+Definition enc_end (nk : nat) (l : list (list ev)) : sx := SL (map (enc_log_end nk) l).
+Definition enc_obs2 (nk : nat) (l : list (list ev)) : sx := SL [enc_obs nk l; enc_end nk l].
+
 Definition model (i : sx) : sx :=
-  let '(c, ops) := dec_case i in enc_obs (nsinks c) (run_events c ops).
-(* the property's oracle: the observation is what the path specification prescribes *)
+  let '(c, ops) := dec_case i in enc_obs2 (nsinks c) (run_events c ops).
+(* the property's oracle: the observation -- what every call made observable at once AND what every sink
+   still holds for that call at the end of the history -- is what the path specification prescribes *)
 Definition spec (i o : sx) : bool :=
-  let '(c, ops) := dec_case i in sx_eqb o (enc_obs (nsinks c) (spec_events c ops)).
+  let '(c, ops) := dec_case i in sx_eqb o (enc_obs2 (nsinks c) (spec_events c ops)).
 
 (* well-formedness of the standard-library answers carried by the static fields of a case *)
 Definition wf_sfld (s : sfld) : bool := match s with SF f => wf_fld f | _ => true end.
